@@ -224,7 +224,7 @@ PROPS = {
         "thorough_ms": 240000,
         "floors": {"result.ok": 10000, "result.err": 10000, "relevant.requirement-satisfied": 2500, "relevant.exempt-conflict": 500,
                    "relevant.exempt-exclusive": 100, "relevant.exempt-subcommand": 250, "relevant.conflict-half-present": 500, "argv.append-several-occurrences": 5000},
-        "rule": "2-7 flags/options (Set or Append, defaults, env) + 0-2 groups (required/multiple/conflicts/requires) with random relation digraphs: conflicts_with "
+        "rule": "2-7 flags/options (Set or Append, defaults, env) + 0-2 groups (required/multiple/conflicts (against arguments or another, disjoint group)/requires) with random relation digraphs: conflicts_with "
                 "(args and groups), requires, requires_if(s) (the same target possibly named by several values and unconditionally), overrides (1/3 of cases, incl. chains and self), required, exclusive, "
                 "required_unless_present_any/_all, required_if_eq_any/_all, subcommand_negates_reqs / args_conflicts_with_subcommands x argv "
                 "supplying a uniformly sized random subset (with repeats under overrides; Append options 1-3 times with values from {v1,v2,v3}) + env. Oracle on every Ok: independent evaluator over "
@@ -246,7 +246,7 @@ PROPS = {
                    "relations.conflict-error": 1000, "relations.missing-error": 1000, "suggestion.arg": 50, "suggestion.subcommand": 15},
         "rule": "conventional trees (as C02, with typed options, subcommand_required levels and args_conflicts_with_subcommands levels) x valid intents: (a) the fault-free rendering must be "
                 "accepted; (b) 13 single-fault injectors, each applied only where it breaks exactly one rule (unknown long/short in front, surplus "
-                "positional, dropped required option, repeated non-overriding Set, one value too few, option at end without value, `--flag=v`, "
+                "positional, dropped required option, repeated non-overriding Set, one value too few, option at end without value, `--flag=v` / `--flag=`, "
                 "out-of-range / non-numeric typed value, detached value under require_equals, omitted required subcommand, non-UTF-8 into a String "
                 "parser, unknown or misspelled plain word where only a subcommand name could stand) must be rejected with the justified kind; over random relation graphs every ArgumentConflict / MissingRequiredArgument must "
                 "be backed by a declared conflict among the supplied arguments / a rule that requires something absent, and no other kind may occur; "
@@ -262,7 +262,7 @@ PROPS = {
         "quick_ms": 20000,
         "thorough_ms": 300000,
         "floors": {"agree.ok": 5000, "agree.err": 25000, "build.idempotence-checked": 2500, "reused.after-history": 10000, "reused.explicitly-built": 1500},
-        "rule": "wild (C01 generator) and conventional (globals, defaults, flag subcommands) command trees, no multicall; one long-lived Command "
+        "rule": "wild (C01 generator, multicall included) and conventional (globals, defaults, flag subcommands) command trees; one long-lived Command "
                 "value is driven through a random history of length 2-10 over {try_get_matches_from_mut(hostile argv), build(), render_help, "
                 "render_long_help, render_usage, clone-and-continue}; after every parse step the result is compared with (i) a fresh value, "
                 "(ii) a second fresh value (repeatability), (iii) a value on which build() was called first: Ok => ArgMatches ==, Err => same "
@@ -384,7 +384,7 @@ PROPS = {
                    "type.N": 500, "type.A": 500, "type.B": 500, "type.C": 500, "type.D": 500, "type.E": 500, "type.F": 500, "type.G": 500, "type.L": 500,
                    "update.sub.option.same-variant": 300, "update.sub.option.other-variant": 300, "update.sub.plain.same-variant": 300, "update.sub.option.no-subcommand-named": 150},
         "rule": "corpus of 11 derived Parser types (+ Args, 3 Subcommand enums, 1 ValueEnum) spanning bool / SetFalse bool / counter / T / Option<T> / "
-                "Option<Option<T>> (with and without default) / Vec<T> / Option<Vec<T>> / delimited Vec / fixed-arity Vec / last Vec / positionals / default_value_t / "
+                "Option<Option<T>> (with and without default) / a scalar whose argument holds several delimited values / Vec<T> / Option<Vec<T>> / delimited Vec / fixed-arity Vec / last Vec / positionals / default_value_t / "
                 "default_values_t / default_missing_value / env / rename_all / flatten / global / optional, required, nested, tuple-variant, flattened-enum and external subcommands / "
                 "value_enum with aliases, renamed, hidden and skipped variants. Per type: random values are printed to argv and parsed back (round trip); "
                 "the printed line and 3 mutations of it (token dropped/duplicated/swapped/suffixed, --bogus, -h, --, empty, overflow) are parsed by "
